@@ -14,7 +14,7 @@ from ..absint.query import sel
 from ..effects import Effects
 from ..facts import Broken, callee_name
 from ..ref.crc import bit_as_set, expected_bit
-from ..region import Region
+from ..region import GateBypassed, Region
 from ..report import Finding
 
 LEVEL = "other"
@@ -42,6 +42,25 @@ def syndrome_of(r):
 
 
 def run(facts, rep, tier):
+    try:
+        return _run(facts, rep, tier)
+    except GateBypassed as e:
+        _bypassed(facts, rep, e)
+
+
+def _bypassed(facts, rep, e):
+    """the reader thread never calls the analysed gate: what the proofs about get_message establish does not apply to it"""
+    from ..cfg import call_graph, reachable_bodies
+    roots = [b.name for b in facts.bodies.values() if b.kind == 'closure' and b.parent and b.parent.endswith('spawn_reader_thread')]
+    reach = reachable_bodies(facts, roots, call_graph(facts)) if roots else set()
+    parts = sorted(n.split('::')[-1] for n in reach if n.split('::')[-1] in ('clean_squitter', 'parity_ok', 'length_matches_format', 'get_frame', 'get_crc'))
+    rep.rule('R04.2', 'effects dominated by the accept gates', 'P')
+    rep.oblige(False, ('gate-bypassed',))
+    rep.add(Finding('R04.2', 'the reader does not accept lines through get_message', 'frames reach the table without passing the parity check of get_message: the reader thread calls %s itself; the accept decision proven for get_message (digits, length, DF/length agreement, parity) is not the one that guards the table' % (parts or 'no part of the gate'), None))
+    rep.instances('R04.2', 1, floor=1)
+
+
+def _run(facts, rep, tier):
     rep.explanation = (
         "E2 abstract interpretation of get_message on a symbolic line for every DF: the predicates evaluated by the gate are "
         "collected; their dependency sets decide which frame bits can influence acceptance, and the compared value - kept "
